@@ -41,6 +41,20 @@ def directed_histories(chk):
     return [json.loads(b.replace('\\"', '"')) for b in beh]
 
 
+def build_i64ext(py):
+    """harness/py/i64ext.cpp: an extension module that registers FixedArray<int64_t> with the buffer protocol through PyImath's
+    public C++ API (the imath module registers no class for this exported instantiation).  Returns the directory holding vi64.so."""
+    d = py["dir"]
+    out = os.path.join(d, "vi64.so")
+    lib = [f for f in os.listdir(os.path.join(d, "src/python/PyImath")) if re.match(r"libPyImath_Python3_11-\d+_\d+\.so$", f)]
+    if not lib:
+        raise vlib.Infra("libPyImath not found in " + d)
+    vlib.sh(["g++", "-O1", "-std=c++14", "-fPIC", "-shared", "-I", os.path.join(vlib.REPO, "src/python/PyImath"), "-I", os.path.join(vlib.REPO, "src/Imath"),
+             "-I", os.path.join(d, "src/python/PyImath"), "-I", os.path.join(d, "config"), "-I", "/usr/include/python3.11",
+             os.path.join(vlib.HARNESS, "py", "i64ext.cpp"), "-o", out, "-L", os.path.join(d, "src/python/PyImath"), "-l" + lib[0][3:-3], "-lboost_python311"], timeout=900)
+    return d
+
+
 def run(tier):
     chk = vlib.Check("C19", tier)
     thorough = tier == "thorough"
@@ -83,7 +97,9 @@ def run(tier):
                     g.writelines(e)
             files.append(p)
     chk.traces("PyArrayTrace", files, what="%d TLC-generated histories replayed through %d array classes of the real imath module (MALLOC_PERTURB_, allocator churn after every release)" % (len(hist), len(classes)), episodes=neps)
-    # remaining clauses: buffer protocol, FixedArray2D, FixedMatrix, StringArray
+    # remaining clauses: buffer protocol, FixedArray2D, FixedMatrix, FixedVArray, StringArray
+    env = dict(env)
+    env["PYTHONPATH"] = env.get("PYTHONPATH", "") + ":" + build_i64ext(py)
     mp = vlib.run_to_file([py["python"], os.path.join(vlib.HARNESS, "py", "rec_pymisc.py"), str(vlib.SEED), tier],
                           os.path.join(chk.work, "pymisc.ndjson"), timeout=3600, env=env)
     mfiles, _ = vlib.split_file(mp, 8, chk.work, "pymisc")
